@@ -89,6 +89,7 @@ PROPS['C01'] = m1prop('C01', 'theories/Props/C01.v', ['C01', 'panic', 'hang'],
                                             ('C01-conclusions-reordered', 19, 'gated: while the callback routine is busy a response and then an error are concluded, 12 tries; each reaches its own callback (F5)')))
 PROPS['C02'] = m1prop('C02', 'theories/Props/C02.v', ['C02'],
                       extra=scenario_extra(('C02-outstanding-written-twice', 10, 'gated: the connection drops while the dispatcher is inside ws.Client.Write (the write succeeds); after the reconnection another request is queued: still one outstanding CALL, written once'),
+                                            ('C02-written-twice-by-reconnect-racing-dispatch', 21, 'gated (RequestQueue.IsEmpty held): the connection drops and comes back while the pump is about to dispatch a request; the request is written once (F16)'),
                                             ('C02-written-twice-after-restart', 11, 'gated: Stop overtakes a ready token, 12 tries; after Start the first request is written exactly once (F31)')))
 PROPS['C07'] = m1prop('C07', 'theories/Props/C07.v', ['C07', 'hang', 'panic'],
                       extra=scenario_extra(('C07-senders-vs-disconnect-deadlock', 6, 'real sockets: 4 goroutines keep sending on a charge point while the central system drops its connection 12 times; every send and the final Stop must return (F30)'),
